@@ -90,6 +90,11 @@ pub struct LinkCfg {
     /// mixed trigger history: the first TDH of an HBF whose RDH trigger type carries the PhT bit is a physics
     /// trigger (internal flag clear, mirrors the RDH), every other TDH is an internal one
     pub physics_first_on_pht: bool,
+    /// status flags set in every TDT (not reserved bits, no protocol meaning for the checks): bit 0 transmission
+    /// timeout, bit 1 lane starts violation, bit 2 timeout to start, bit 3 timeout start-stop, bit 4 timeout in idle
+    pub tdt_status: u8,
+    /// RDH packet counter of the link's first packet (8 bits, wraps)
+    pub first_packet_counter: u8,
 }
 
 pub const TRG_SOC_HB_TF: u32 = 0x6A03; // ORBIT|HB|TF|SOC|... as in the recorded data (SOT/SOC at run start)
@@ -114,6 +119,8 @@ impl LinkCfg {
             bc_step: 0x100,
             internal: true,
             physics_first_on_pht: false,
+            tdt_status: 0,
+            first_packet_counter: 0,
         }
     }
     pub fn ml(link_id: u8, stave: u8, upper: bool) -> Self {
@@ -207,8 +214,21 @@ pub struct LinkRenderer {
 }
 
 impl LinkRenderer {
+    fn tdt(&self, done: bool) -> Word {
+        let f = self.cfg.tdt_status;
+        Tdt {
+            packet_done: done,
+            transmission_timeout: f & 1 != 0,
+            lane_starts_violation: f & 2 != 0,
+            timeout_to_start: f & 4 != 0,
+            timeout_start_stop: f & 8 != 0,
+            timeout_in_idle: f & 16 != 0,
+            ..Default::default()
+        }
+        .encode()
+    }
     pub fn new(cfg: &LinkCfg) -> Self {
-        LinkRenderer { cfg: cfg.clone(), hbf: 0, page: 0, trig_no: 0, open_tdh: None, pkt_counter: 0, orbit_cycle: None, cdw_no: 0 }
+        LinkRenderer { cfg: cfg.clone(), hbf: 0, page: 0, trig_no: 0, open_tdh: None, pkt_counter: cfg.first_packet_counter, orbit_cycle: None, cdw_no: 0 }
     }
     pub fn orbit(&self) -> u32 {
         let i = match self.orbit_cycle {
@@ -272,7 +292,7 @@ impl LinkRenderer {
             for d in dws {
                 ws.push((*d, WKind::Data));
             }
-            ws.push((Tdt::done(*done), WKind::Tdt));
+            ws.push((self.tdt(*done), WKind::Tdt));
             if *done {
                 self.open_tdh = None;
             } else {
@@ -305,7 +325,7 @@ impl LinkRenderer {
                     for d in dws {
                         ws.push((*d, WKind::Data));
                     }
-                    ws.push((Tdt::done(*done), WKind::Tdt));
+                    ws.push((self.tdt(*done), WKind::Tdt));
                     if !*done {
                         self.open_tdh = Some(t);
                     }
